@@ -1,7 +1,6 @@
 fn main(){
-    let t=vcore::sjis::tricky_strings();
-    println!("{} strings, {} reps", t.len(), vcore::sjis::class_representatives().len());
-    println!("{:?}", &t[..40.min(t.len())]);
-    println!("{:?}", vcore::sjis::collation_inversions());
-    for s in ["增","栁","喆","桒原","髙","﨑x","纊","黑","〜","HP×2","Жa"] { println!("{} lossless={} {:x?}", s, vcore::sjis::lossless(s), vcore::sjis::encode(s)); }
+    let t=std::time::Instant::now();
+    let p=vcore::collide::pairs();
+    println!("{} pairs in {:?}", p.len(), t.elapsed());
+    for x in p { println!("{:?}", x); }
 }
